@@ -36,13 +36,13 @@ Canon(bs) == IF bs = <<>> THEN <<>>
 IsCanon(bs) == Canon(bs) = bs
 
 \* canonical signed encoding of an Int with |n| < 2^30
+RECURSIVE IntBytes(_)
 IntBytes(n) ==
   IF n = 0 THEN <<>>
   ELSE IF n > 0 THEN LET b == PosBytes(n) IN IF b[1] >= 128 THEN <<0>> \o b ELSE b
-  ELSE LET k == CHOOSE k \in 1..4 : -n <= Pow256(k) \div 2 /\ (k = 1 \/ -n > Pow256(k - 1) \div 2)
-           b == PosBytes(Pow256(k) + n)
-           pad == [i \in 1..(k - Len(b)) |-> 0]
-       IN pad \o b
+  ELSE IF n = -1 THEN <<255>>
+  ELSE \* two's complement: invert the bytes of -n-1 (no power of 256 is formed, so no 32 bit overflow)
+       LET p == IntBytes(-n - 1) IN [i \in 1..Len(p) |-> 255 - p[i]]
 
 \* sign extension to n bytes
 SignExt(bs, n) == LET fill == IF bs # <<>> /\ bs[1] >= 128 THEN 255 ELSE 0
